@@ -153,6 +153,9 @@ def items(tier, seed):
 
     cases = _cases(tier)
     size = 1000
+    import gc
+
+    gc.freeze()  # keep the forked workers' collector off the parent's heap (fewer copy-on-write faults)
     return [{"cases": cases[i : i + size]} for i in range(0, len(cases), size)]
 
 
